@@ -496,6 +496,41 @@ Print Assumptions C01_run_run.""" % (STEP_STMT % "Step")) if full else ""))
     if rca == 0:
         ck.assumptions += vlib.parse_assumptions(outa)
     ck.sample({"theorem": "C01_step_alternative : " + stm["alt"]})
+    # --- the interrupt latch: after every Step it reads 1, so C01_run needs "no interrupt pending" at the first state only
+    from checks import cpulatch
+    alt_ok = rca == 0
+
+    lfiles = {}
+    for mod in ("GenCpu65", "GenCpuAlt"):      # generation is sequential (it switches a module-level setting of cpusafe)
+        txt, linfo = cpulatch.generate(os.path.join(vlib.GEN, mod + ".v"), mod)
+        lv = os.path.join(vlib.RUN, "C01_latch_%s.v" % mod)
+        vlib.write_if_changed(lv, txt)
+        lfiles[mod] = (lv, len(linfo["lemmas"]))
+
+    def one_latch(mod):
+        rc, out, dt, _ = vlib.coqc(lfiles[mod][0], timeout=1800)
+        return mod, rc, out, lfiles[mod][1]
+    lres = vlib.parallel([lambda m=m: one_latch(m) for m in ("GenCpu65", "GenCpuAlt")])
+    lok = {m: rc == 0 for (m, rc, _, _) in lres}
+    for (m, rc, out, nl) in lres:
+        ck.oblige("Theorem latch_%s: from ANY state with fields in their Go types, Step does not panic, keeps the fields in range and leaves the "
+                  "interrupt latch at 1 (%d routine lemmas over the regenerated model, SafeLib engine)" % (m, nl), rc == 0,
+                  "first lemma that no longer checks: " + cpulink.first_failing(out))
+    if rct == 0 and lok.get("GenCpu65"):
+        use_alt = alt_ok and lok.get("GenCpuAlt")
+        rv = os.path.join(vlib.RUN, "C01_runlatched.v")
+        vlib.write_if_changed(rv, cpulatch.RUN_V % {
+            "imports": stm["imports"].replace("C01AdcRef.", "C01AdcRef C01Props.").replace("C01L_C01AdcRef.", "C01L_C01AdcRef C01L_C01Props."),
+            "altreq": " C01_transport_alt C01_latch_GenCpuAlt" if use_alt else "",
+            "alt": cpulatch.ALT_PART if use_alt else ""})
+        rcr, outr, _, _ = vlib.coqc(rv, timeout=900)
+        ck.oblige("Theorem C01_run_latched_primary%s: along n steps of the REGENERATED model from any wf state with fields in their Go types and "
+                  "no interrupt pending AT THE START, whose visited states have E = 0 and defined BCD operands: no step panics and every step is "
+                  "one the specification allows (spec_trace) - the latch lemma supplies `no interrupt pending` for every later state"
+                  % (" / _alternative" if use_alt else ""), rcr == 0, outr)
+        if rcr == 0:
+            ck.assumptions += vlib.parse_assumptions(outr)
+
 
 
 def run_c01(ck):
